@@ -786,17 +786,38 @@ func registerFsModels(P *Program) {
 			bs[i] = byte(c)
 		}
 		doc := string(bs)
-		if !strings.HasPrefix(doc, "VPKEYXML:") {
-			return ex.freshError("xml: syntax error"), true
-		}
-		nbits, _ := strconv.Atoi(strings.TrimPrefix(doc, "VPKEYXML:"))
 		dst := args[1].(Iface)
 		so, ok := dst.V.(Pointer).C.V.(*StructObj)
 		st, ok2 := dst.T.(*types.Pointer).Elem().Underlying().(*types.Struct)
 		if !ok || !ok2 {
 			ex.unsupported("xml.Unmarshal into %s", dst.T)
 		}
-		ex.stubs["encoding/xml.Unmarshal is a stub: it fills the key struct with arbitrary values (modulus of the requested bit length, or none)"] = true
+		ex.stubs["encoding/xml.Unmarshal is a stub: it fills the key struct with arbitrary values (modulus of the requested bit length, or none; missing elements stay nil; gabi's big integer decoding refuses negative numbers, the base list decoder does not)"] = true
+		if strings.HasPrefix(doc, "VPSKXML:") {
+			// private key document: the toy safe primes 23 = 2*11+1 and 47 = 2*23+1, minus the element named by the flaw
+			missing, _ := strconv.Atoi(strings.TrimPrefix(doc, "VPSKXML:"))
+			vals := map[string]int64{"P": 23, "Q": 47, "PPrime": 11, "QPrime": 23}
+			skip := map[int]string{1: "P", 2: "Q", 3: "PPrime", 4: "QPrime"}[missing]
+			for i := 0; i < st.NumFields(); i++ {
+				if v, ok := vals[st.Field(i).Name()]; ok && st.Field(i).Name() != skip {
+					so.F[i].V = ex.newBig(bigConst(v))
+				}
+			}
+			return Iface{}, true
+		}
+		if !strings.HasPrefix(doc, "VPKEYXML:") {
+			return ex.freshError("xml: syntax error"), true
+		}
+		parts := strings.Split(strings.TrimPrefix(doc, "VPKEYXML:"), ":")
+		nbits, _ := strconv.Atoi(parts[0])
+		flaw := 0
+		if len(parts) > 1 {
+			flaw, _ = strconv.Atoi(parts[1])
+		}
+		// flaws: 1 no <Z>, 2 no <S>, 3 no <Bases>, 4 a negative base, 5 a negative Z (refused by the integer decoder)
+		if flaw == 5 {
+			return ex.freshError("xml: negative number"), true
+		}
 		for i := 0; i < st.NumFields(); i++ {
 			switch st.Field(i).Name() {
 			case "N":
@@ -808,15 +829,72 @@ func registerFsModels(P *Program) {
 					so.F[i].V = ex.newBig(BigVal{I: smt.Var(n, smt.Int, lo, hi)})
 				}
 			case "Z", "S":
-				so.F[i].V = ex.newBig(BigVal{I: ex.freshInt("xml"+st.Field(i).Name(), big.NewInt(0), nil)})
+				if (st.Field(i).Name() == "Z" && flaw == 1) || (st.Field(i).Name() == "S" && flaw == 2) {
+					continue
+				}
+				so.F[i].V = ex.newBig(BigVal{I: ex.freshInt("xml"+st.Field(i).Name(), big.NewInt(1), nil)})
 			case "R":
-				sl := ex.makeSlice(st.Field(i).Type().Underlying().(*types.Slice).Elem(), 2, 2)
-				for k := 0; k < 2; k++ {
-					sl.A.E[k].V = ex.newBig(BigVal{I: ex.freshInt("xmlR", big.NewInt(0), nil)})
+				if flaw == 3 {
+					continue
+				}
+				// the base list is decoded by the repo's own (*Bases).UnmarshalXML: run it, with the generic
+				// element decoder it calls replaced by a model that delivers the element texts
+				texts := []string{"3", "9"}
+				if flaw == 4 {
+					texts = []string{"3", "-9"}
+				}
+				var um *ssa.Function
+				if pkg := ex.P.Prog.ImportedPackage(TargetModule + "/gabikeys"); pkg != nil {
+					if named := pkg.Type("Bases"); named != nil {
+						um = ex.P.Prog.LookupMethod(types.NewPointer(named.Type()), pkg.Pkg, "UnmarshalXML")
+					}
+				}
+				if um == nil {
+					ex.unsupported("gabikeys.(*Bases).UnmarshalXML not found")
+				}
+				ex.xmlElementTexts = texts
+				ret := ex.callFunction(um, []Value{Pointer{C: so.F[i]}, Pointer{}, ex.zero(um.Signature.Params().At(1).Type())})
+				if e, isIface := ret.(Iface); isIface && e.T != nil {
+					return ret, true // the decoder passes the error on
+				}
+			}
+		}
+		return Iface{}, true
+	}
+	// (*xml.Decoder).DecodeElement as called by (*Bases).UnmarshalXML: fills the auxiliary xmlBases struct
+	// (attribute num, one element per base with its inner text) from the texts set by the xml.Unmarshal stub
+	m["(*encoding/xml.Decoder).DecodeElement"] = func(ex *Exec, fn *ssa.Function, args []Value) (Value, bool) {
+		dst, ok := args[1].(Iface)
+		if !ok || ex.xmlElementTexts == nil {
+			ex.unsupported("xml.Decoder.DecodeElement outside the key stub")
+		}
+		so, ok1 := dst.V.(Pointer).C.V.(*StructObj)
+		st, ok2 := dst.T.(*types.Pointer).Elem().Underlying().(*types.Struct)
+		if !ok1 || !ok2 {
+			ex.unsupported("DecodeElement into %s", dst.T)
+		}
+		for i := 0; i < st.NumFields(); i++ {
+			switch st.Field(i).Name() {
+			case "Num":
+				so.F[i].V = smt.I64(int64(len(ex.xmlElementTexts)))
+			case "Bases":
+				pt := st.Field(i).Type().Underlying().(*types.Slice).Elem()
+				et := pt.(*types.Pointer).Elem()
+				est := et.Underlying().(*types.Struct)
+				sl := ex.makeSlice(pt, len(ex.xmlElementTexts), len(ex.xmlElementTexts))
+				for k, txt := range ex.xmlElementTexts {
+					c := ex.alloc(et)
+					for j := 0; j < est.NumFields(); j++ {
+						if est.Field(j).Name() == "Bigint" {
+							c.V.(*StructObj).F[j].V = txt
+						}
+					}
+					sl.A.E[k].V = Pointer{C: c}
 				}
 				so.F[i].V = sl
 			}
 		}
+		ex.xmlElementTexts = nil
 		return Iface{}, true
 	}
 	m["encoding/xml.MarshalIndent"] = func(ex *Exec, fn *ssa.Function, args []Value) (Value, bool) {
